@@ -434,7 +434,7 @@ def _jobs_for(prop, tier):
         return [j for j in jobs_option_below(tier) if j[1][3] == 'combinations'] + jobs_combinations(tier) + jobs_axis0(tier, 'combinations')
     if prop == 'C03':
         return jobs_c03(tier) + jobs_option_reduce(tier) + jobs_axis(tier, ('reduce',)) + jobs_reduce_nonlocal(tier)
-    return {'C02': jobs_c02, 'C03': jobs_c03, 'C04': jobs_c04, 'C06': (lambda t: jobs_c06(t) + jobs_axis(t, ('sort', 'argsort')) + jobs_numpy_sort(t)), 'C08': (lambda t: jobs_c08(t) + jobs_numpy(t) + jobs_union(t) + jobs_reverse_merge(t) + jobs_record_merge(t) + jobs_list_merge(t) + [j for j in jobs_record_named(t) if j[0] is h_record_mergemany_named] + jobs_merge_union(t) + jobs_union_ops(t)), 'C17': jobs_c17, 'C12': jobs_numpy, 'C10': (lambda t: jobs_c10(t) + [j for j in jobs_record_named(t) if j[0] is h_record_field_key] + jobs_project(t) + [j for j in jobs_option_below(t) if j[1][3] == 'getitem_field'] + jobs_record_setitem(t)), 'C05': jobs_c05, 'C09': jobs_c09}.get(prop, lambda t: [])(tier)
+    return {'C02': jobs_c02, 'C03': jobs_c03, 'C04': jobs_c04, 'C06': (lambda t: jobs_c06(t) + jobs_axis(t, ('sort', 'argsort')) + jobs_numpy_sort(t) + jobs_sort_nonlocal(t)), 'C08': (lambda t: jobs_c08(t) + jobs_numpy(t) + jobs_union(t) + jobs_reverse_merge(t) + jobs_record_merge(t) + jobs_list_merge(t) + [j for j in jobs_record_named(t) if j[0] is h_record_mergemany_named] + jobs_merge_union(t) + jobs_union_ops(t)), 'C17': jobs_c17, 'C12': jobs_numpy, 'C10': (lambda t: jobs_c10(t) + [j for j in jobs_record_named(t) if j[0] is h_record_field_key] + jobs_project(t) + [j for j in jobs_option_below(t) if j[1][3] == 'getitem_field'] + jobs_record_setitem(t)), 'C05': jobs_c05, 'C09': jobs_c09}.get(prop, lambda t: [])(tier)
 
 
 # ------------------------------------------------------------------------------------------------ C01: getitem_next of list nodes
@@ -4460,3 +4460,183 @@ def jobs_reduce_nonlocal(tier):
     if tier != 'quick':
         q += [((1, 1, 1), (0, 0, 0)), ((3, 1, 2), (0, 0, 0)), ((2, 2), (0, 2)), ((1,), (0,)), ((0, 0), (0, 0))]
     return [(h_reduce_nonlocal, (l, p, pos), 1800) for l, p in q for pos in (False, True)]
+
+
+def _handed_on_obligations(ob, lens, parents, offs, with_shifts):
+    """what a list node hands to its content when the operation goes across the lists of an outer group (shared by reduce / sort / argsort):
+    -> (obligations, atoms of the handed content, group numbers) ; see h_reduce_nonlocal"""
+    n, total = len(lens), sum(lens)
+    info, g_ = ob['info'], ob['pc']
+    G = lambda c: z3.And(g_, c)
+    obls = []
+    hl = nodeh.concrete(info['length'], 'length of the content handed over', under=g_)
+    obls.append(('the content handed over holds every covered element once', G(z3.BoolVal(hl != total))))
+    atoms = [z3.simplify(z3.Select(info['atoms'], BV(k))) for k in range(hl)]
+    pars = ob['parents']
+    if len(pars) != hl:
+        return obls + [('one group number per handed element', g_)], atoms, None
+    key_of = []
+    for k in range(hl):
+        gi, ji, found = BV(-1), BV(-1), z3.BoolVal(False)
+        for i in range(n):
+            for j in range(lens[i]):
+                hit = atoms[k] == offs[i] + j
+                gi, ji = z3.If(hit, BV(parents[i]), gi), z3.If(hit, BV(j), ji)
+                found = z3.Or(found, hit)
+        key_of.append((z3.simplify(gi), z3.simplify(ji)))
+        obls.append(('handed element %d is a covered element' % k, G(z3.Not(found))))
+    for a in range(hl):
+        for b in range(a + 1, hl):
+            obls.append(('handed elements %d and %d are different elements' % (a, b), G(atoms[a] == atoms[b])))
+            same_key = z3.And(key_of[a][0] == key_of[b][0], key_of[a][1] == key_of[b][1])
+            obls.append(('elements %d and %d share a group number exactly when they share (outer group, position)' % (a, b), G((pars[a] == pars[b]) != same_key)))
+            # members of one group keep the order of their lists (what "first" and "stable" mean below)
+            lst = lambda k_: z3.simplify(_list_of(atoms[k_], lens, offs))
+            obls.append(('within a group the handed order is the order of the lists (%d, %d)' % (a, b), G(z3.And(pars[a] == pars[b], lst(a) > lst(b)))))
+    for k in range(hl):
+        st_k = ob['starts'][0] if ob['starts'] else BV(-1)
+        for q in range(len(ob['starts'])):
+            st_k = z3.If(pars[k] == q, ob['starts'][q], st_k)
+        firstpos = BV(k)
+        for b in range(k - 1, -1, -1):
+            firstpos = z3.If(pars[b] == pars[k], BV(b), firstpos)
+        obls.append(('starts of the group of element %d is where that group begins in what is handed over' % k, G(st_k != firstpos)))
+    if with_shifts:
+        if len(ob['shifts']) != hl:
+            obls.append(('one shift per handed element', g_))
+        else:
+            for k in range(hl):
+                want = BV(0)
+                for i in range(n):
+                    for j in range(lens[i]):
+                        cnt = sum(1 for i2 in range(i) if parents[i2] == parents[i] and lens[i2] <= j)
+                        want = z3.If(atoms[k] == offs[i] + j, BV(cnt), want)
+                obls.append(('shift of handed element %d = earlier lists of its group too short for its position' % k, G(ob['shifts'][k] != want)))
+    return obls, atoms, pars
+
+
+def _list_of(atom, lens, offs):
+    v = BV(-1)
+    for i in range(len(lens)):
+        for j in range(lens[i]):
+            v = z3.If(atom == offs[i] + j, BV(i), v)
+    return v
+
+
+@guard
+def h_sort_nonlocal(lens, parents, arg):
+    """ListOffsetArray64::sort_next / argsort_next across the lists of an outer group (e.g. ak.sort(axis=0) of a list of lists): the content is
+    handed the elements grouped by (outer group, position) - as for reductions - and whatever the content answers for the element handed at
+    position k ends up at the place of the very element that was handed at position k: same list, same position; list lengths are unchanged"""
+    lens, parents = list(lens), list(parents)
+    n, total = len(lens), sum(lens)
+    outlength = (max(parents) + 1) if parents else 0
+    nc = NodeCtx(['LOA', 'LA', 'RA', 'IDX', 'CNT', 'UTL', 'KD', 'IDS', 'NA'], [], unwind=max(14, 3 * total + 2 * n + outlength * (max(lens + [0]) + 1) + 10))
+    S = z3.Function('SORTED', z3.BitVecSort(64), z3.BitVecSort(64))
+    seen = []
+
+    def s_sort_next(eng, fr, ins, st, name, argv):
+        if arg:
+            sret, selfp, negaxis, starts, shifts, parents_, outl, asc, stb = argv
+        else:
+            sret, selfp, negaxis, starts, parents_, outl, asc, stb = argv
+            shifts = None
+        nm, info = nc.content_info(selfp, st, eng)
+        seen.append(dict(pc=st.pc, info=info, negaxis=negaxis, starts=nc.index_terms(st.mem, starts, 'starts')[0], parents=nc.index_terms(st.mem, parents_, 'parents')[0],
+                         shifts=nc.index_terms(st.mem, shifts, 'shifts')[0] if shifts is not None else [], outlength=outl, asc=asc, stb=stb))
+        k = z3.BitVec('k!', 64)
+        nc._ret(st, sret, nc.fresh_content(eng, st, info['length'], z3.Lambda([k], S(k)), derived='sorted'))
+        return None
+    frag = '12argsort_nextElRKNS_7IndexOfIlEES4_S4_lbb' if arg else '9sort_nextElRKNS_7IndexOfIlEES4_lbb'
+    nc.m.eng.stubs['vf$slot%d' % nc.slot(frag)] = s_sort_next
+    # harness nodes carry no parameters: purelist_parameter("__array__") is the empty string (not "string" / "bytestring")
+    nc.m.eng.stubs['_ZNK7awkward7Content18purelist_parameterE*'] = nodeh.s_empty_string
+    nc.m.eng.stubs['_ZNK7awkward17ListOffsetArrayOfIlE18purelist_parameterE*'] = nodeh.s_empty_string
+    nc.m.eng.stubs.update(string_stubs(nc))
+    from .mbuild import cstring_stubs
+    nc.m.eng.stubs.update({k_: v_ for k_, v_ in cstring_stubs().items() if 'compare' in k_})
+    nc.m.eng.stubs['vf$slot%d' % nc.slot('12branch_depthEv')] = lambda eng, fr, ins, st, name, argv: [z3.BitVecVal(0, 8), BV(1)]
+    this, lists, offs = build_listoffset64(nc, lens)
+
+    def index64(name, vals):
+        arr = z3.K(z3.BitVecSort(64), BV(0))
+        for i, v in enumerate(vals):
+            arr = z3.Store(arr, BV(i), BV(v))
+        d = nc.m.array(name + '_data', ('i', 64), max(1, len(vals)), const=True, arr=arr)
+        cells = {}
+        nc.index_cells(cells, 0, d, BV(0), BV(len(vals)))
+        return nc.m.record(name, cells, const=True)
+    first_of = {g: min(i for i, p in enumerate(parents) if p == g) for g in set(parents)}
+    pidx = index64('parents', parents)
+    starts = index64('starts', [first_of.get(g, 0) for g in range(outlength)])
+    shifts = index64('shifts', [])
+    nc.m.record('ret', {})
+    asc, stb = nc.m.bv('ascending', 1), nc.m.bv('stable', 1)
+    if arg:
+        cands = [f for mod_ in nc.m.eng.mods for f in mod_.func_src if f.startswith('_ZNK7awkward17ListOffsetArrayOfIlE12argsort_nextE')]
+        out = nc.m.call(cands[0], [Ptr('ret', 0), this, BV(2), starts, shifts, pidx, BV(outlength), asc, stb])
+    else:
+        cands = [f for mod_ in nc.m.eng.mods for f in mod_.func_src if f.startswith('_ZNK7awkward17ListOffsetArrayOfIlE9sort_nextE')]
+        out = nc.m.call(cands[0], [Ptr('ret', 0), this, BV(2), starts, pidx, BV(outlength), asc, stb])
+    if n == 0:
+        return mdischarge(nc.m, 'ListOffsetArray64::%s non-local (no lists)' % ('argsort_next' if arg else 'sort_next'), [('does not raise', out.raised)], [], replay=None)
+    obls = [('does not raise', out.raised), ('the content is asked (on every path)', z3.Not(z3.Or([ob['pc'] for ob in seen] + [z3.BoolVal(False)])))]
+    for ob in seen:
+        o2, atoms, pars = _handed_on_obligations(ob, lens, parents, offs, with_shifts=arg)
+        obls += o2
+        G = lambda c: z3.And(ob['pc'], c)
+        obls.append(('the sort below is asked one level further down', G(ob['negaxis'] != 1)))
+        obls.append(('direction and stability are handed on unchanged', G(z3.Or(ob['asc'] != asc, ob['stb'] != stb))))
+        if pars is None:
+            continue
+        for g_, res in nodeh.decode_cases(nc, out.mem, nc.m.cell('ret', 0)):
+            if res is None:
+                obls.append(('a result is returned', z3.And(g_, z3.Not(out.raised)))); continue
+            val = value(res)
+            if [len(v) for v in val] != lens:
+                obls.append(('the list lengths are unchanged (%s, not %s)' % (lens, [len(v) for v in val]), z3.And(g_, ob['pc']))); continue
+            for i in range(n):
+                for j in range(lens[i]):
+                    # the answer for the element handed at position k returns to where that element came from
+                    want = BV(-1)
+                    for k in range(len(atoms)):
+                        want = z3.If(atoms[k] == offs[i] + j, S(BV(k)), want)
+                    obls.append(('list %d position %d receives the answer for the element it handed on' % (i, j), z3.And(g_, ob['pc'], val[i][j].val != want)))
+
+    def replay(model, ent):
+        ov = offsets_values(model, offs)
+        lc = max(model.eval(nc.lencontent, model_completion=True).as_signed_long(), ov[-1])
+        if lc > 200:
+            return False, 'content too long to replay', dict(offsets=ov)
+        a_ = z3.is_true(model.eval(asc == 1, model_completion=True))
+        counts = [sum(1 for p in parents if p == g) for g in range(outlength)]
+        oo, acc = [0], 0
+        for c in counts:
+            acc += c; oo.append(acc)
+        vals = [7 * v % 11 for v in range(lc)]
+        inner = [vals[ov[i]:ov[i + 1]] for i in range(n)]
+        nested = [inner[oo[g]:oo[g + 1]] for g in range(outlength)]
+        head = 'i64 %s listoffset64 %s listoffset64 %s ' % (fullnative.ints(vals), fullnative.ints(ov), fullnative.ints(oo))
+
+        def ref(group):
+            out_ = [list(l) for l in group]
+            width = max([len(l) for l in group] + [0])
+            for j in range(width):
+                rows = [i for i, l in enumerate(group) if len(l) > j]
+                col = [(group[i][j], i) for i in rows]
+                order = sorted(range(len(col)), key=lambda t: (col[t][0] if a_ else -col[t][0], t))
+                for r, t in zip(rows, order):
+                    out_[r][j] = rows[t] if arg else col[t][0]          # argsort reports the list's index in its group (that is what the shifts are for)
+            return out_
+        exp = [ref(gp) for gp in nested]
+        return akrun_check(head + '%s 1 %d 1' % ('argsort' if arg else 'sort', 1 if a_ else 0), exp, '%s(axis=1, ascending=%s, stable) of %s' % ('argsort' if arg else 'sort', a_, nested))
+    return mdischarge(nc.m, 'ListOffsetArray64::%s non-local lens=%s parents=%s' % ('argsort_next' if arg else 'sort_next', ','.join(map(str, lens)), ','.join(map(str, parents))), obls,
+                      [('non-zero offset origin', offs[0] > 0)], replay=replay, prefer=[offs[0] <= 3, nc.lencontent <= offs[-1] + 2],
+                      extra=dict(bounds='list lengths %s and outer groups %s concrete (case split); offsets origin, direction and stability symbolic; opaque leaf content' % (lens, parents)))
+
+
+def jobs_sort_nonlocal(tier):
+    q = [((2, 1), (0, 0)), ((1, 2, 1), (0, 0, 1)), ((0, 1, 1), (0, 0, 1))]
+    if tier != 'quick':
+        q += [((0, 2, 1, 2), (0, 0, 1, 1)), ((2, 0, 3), (0, 1, 1)), ((1, 1, 1), (0, 0, 0)), ((2, 2), (0, 2))]
+    return [(h_sort_nonlocal, (l, p, a), 1800) for l, p in q for a in (False, True)]
